@@ -1,10 +1,10 @@
 package rules
 
 import (
-	"regexp"
 	"fmt"
 	"go/token"
 	"go/types"
+	"regexp"
 	"sort"
 	"strings"
 
@@ -24,7 +24,7 @@ var operandOrder = map[string][]string{
 	"sr,s": {"ib1"}, "(sr,s),y": {"ib1"},
 	"abs": {"ib2", "ib1"}, "abs,x": {"ib2", "ib1"}, "abs,y": {"ib2", "ib1"}, "(abs)": {"ib2", "ib1"}, "[abs]": {"ib2", "ib1"}, "(abs,x)": {"ib2", "ib1"},
 	"long": {"ib3", "ib2", "ib1"}, "long,x": {"ib3", "ib2", "ib1"},
-	"blk": {"ib2", "ib1"},
+	"blk":  {"ib2", "ib1"},
 	"rel8": {"ib1", "T"}, "rel16": {"T"},
 }
 
@@ -392,7 +392,7 @@ func C14(ctx *Ctx) {
 		emitAgg(R, "operand-order", order, rs, "operand bytes rendered most significant first for every addressing mode")
 		emitAgg(R, "branch-target", branch, rs, "rel8/rel16 destinations equal Step's target")
 		emitAgg(R, "registers", regs, rs+":copies", "only authoritative register copies are rendered")
-		R.Count("register-columns", nColumn/2048) // per-cell renderings, scaled to source sites
+		R.Count("register-columns", nColumn/2048)    // per-cell renderings, scaled to source sites
 		R.Count("flag-letter-sites", nFlagRender/64) // per-cell renderings, scaled to the order of source sites
 	}
 	checkFlagLetters(ctx)
@@ -488,6 +488,23 @@ func checkLoggerRegion(ctx *Ctx) {
 		if !edgeDominates(iff.Block(), rk, region) {
 			okPure = false
 			R.Fail("pure", "RunUntil:"+name+":entry", ctx.Prog.Pos(iff.Pos()), "the region can be entered without passing its guard")
+		}
+		// control leaves the region at one place only: where execution continues does not depend on what
+		// happened inside (a failed write, a rendered value)
+		exits := map[*ssa.BasicBlock]bool{}
+		for _, rb := range fn.Blocks {
+			if !region.Dominates(rb) {
+				continue
+			}
+			for _, succ := range rb.Succs {
+				if !region.Dominates(succ) {
+					exits[succ] = true
+				}
+			}
+		}
+		if len(exits) > 1 {
+			okPure = false
+			R.Fail("pure", "RunUntil:"+name+":exits", pos, fmt.Sprintf("the region is left towards %d different places: what happens inside it decides how the run continues", len(exits)))
 		}
 		for _, rb := range fn.Blocks {
 			if !region.Dominates(rb) {
